@@ -1,41 +1,10 @@
-mod engine;
-mod gen;
-mod model;
-mod props;
-mod sched;
-
-use engine::*;
+use tuv::engine::*;
+use tuv::props;
 use serde_json::json;
 use std::collections::{BTreeMap, HashSet};
 use std::path::{Path, PathBuf};
 use std::process::{Child, Command, Stdio};
 use std::time::{Duration, Instant};
-
-pub struct PropMeta {
-    pub id: &'static str,
-    pub rule: &'static str,
-    pub claims_termination: bool,
-    pub essential: &'static [&'static str],
-    pub hang_secs: u64,
-    pub budget: fn(Tier) -> Budget,
-    pub assumptions: fn() -> Vec<String>,
-    pub run_shard: fn(ShardArgs) -> i32,
-    pub replay_one: fn(&Path) -> i32,
-}
-
-pub fn meta<P: Prop>() -> PropMeta {
-    PropMeta {
-        id: P::ID,
-        rule: P::RULE,
-        claims_termination: P::CLAIMS_TERMINATION,
-        essential: P::ESSENTIAL,
-        hang_secs: P::HANG_SECS,
-        budget: P::budget,
-        assumptions: P::assumptions,
-        run_shard: run_shard::<P>,
-        replay_one: replay_one::<P>,
-    }
-}
 
 fn usage() -> ! {
     eprintln!(
@@ -243,12 +212,12 @@ fn check(m: &PropMeta, tier_s: &str) -> i32 {
     let mut replayed = 0u64;
     let mut gen_labels: BTreeMap<String, u64> = BTreeMap::new();
     let mut gen_evals = 0u64;
-    let mut hangs: Vec<(u32, String, serde_json::Value)> = vec![];
+    let mut hangs: Vec<(u32, String, serde_json::Value, Vec<String>)> = vec![];
     finished.sort_by_key(|f| (f.1, f.0));
     for (s, replay, code, out) in &finished {
         let tag = if *replay { "replay".to_string() } else { format!("shard {s}") };
         match *code {
-            EXIT_OK | EXIT_VIOLATION => {
+            EXIT_OK | EXIT_VIOLATION if out.exists() => {
                 let Ok(txt) = std::fs::read(out) else {
                     internal_error(&format!("{tag}: exit {code} but no result file"));
                 };
@@ -307,9 +276,20 @@ fn check(m: &PropMeta, tier_s: &str) -> i32 {
             EXIT_HANG => {
                 let hang_file = out.with_extension("hang");
                 let case_txt = std::fs::read_to_string(&hang_file).unwrap_or_else(|_| "null".into());
-                let case: serde_json::Value =
+                let v: serde_json::Value =
                     serde_json::from_str(&case_txt).unwrap_or(serde_json::Value::Null);
-                hangs.push((*s, tag.clone(), case));
+                let case = v.get("case").cloned().unwrap_or(serde_json::Value::Null);
+                let panics: Vec<String> = v
+                    .get("panics")
+                    .and_then(|p| serde_json::from_value(p.clone()).ok())
+                    .unwrap_or_default();
+                hangs.push((*s, tag.clone(), case, panics));
+            }
+            1 if !out.exists() && out.with_extension("died").exists() => {
+                // the child was ended by process::exit(1) in the middle of a case
+                let case_txt = std::fs::read_to_string(out.with_extension("died")).unwrap_or_else(|_| "null".into());
+                let case: serde_json::Value = serde_json::from_str(&case_txt).unwrap_or(serde_json::Value::Null);
+                hangs.push((*s, tag.clone(), case, vec!["the process was terminated during the case (exit-on-panic hook installed by Pipe::new)".to_string()]));
             }
             c => {
                 eprintln!("{tag}: child exited with status {c}");
@@ -321,7 +301,7 @@ fn check(m: &PropMeta, tier_s: &str) -> i32 {
 
     // ---- hangs: confirm (at most three distinct cases, concurrently), alone in fresh processes
     {
-        let mut distinct: Vec<(u32, String, serde_json::Value)> = vec![];
+        let mut distinct: Vec<(u32, String, serde_json::Value, Vec<String>)> = vec![];
         for h in hangs {
             if !distinct.iter().any(|d| d.2 == h.2) {
                 distinct.push(h);
@@ -330,7 +310,7 @@ fn check(m: &PropMeta, tier_s: &str) -> i32 {
         let extra = distinct.len().saturating_sub(3);
         distinct.truncate(3);
         let mut procs = vec![];
-        for (s, tag, case) in distinct {
+        for (s, tag, case, panics) in distinct {
             let confirm = work.join(format!("hang-confirm-{s}.json"));
             std::fs::write(&confirm, serde_json::to_vec(&json!({"case": case})).unwrap()).unwrap();
             let c = Command::new(&exe)
@@ -341,7 +321,7 @@ fn check(m: &PropMeta, tier_s: &str) -> i32 {
                 .stderr(Stdio::null())
                 .spawn()
                 .expect("spawn confirm");
-            procs.push((s, tag, case, c, None::<i32>));
+            procs.push((s, tag, case, c, None::<i32>, panics));
         }
         let t0 = Instant::now();
         while t0.elapsed() < Duration::from_secs(m.hang_secs + 30) && procs.iter().any(|p| p.4.is_none()) {
@@ -354,7 +334,7 @@ fn check(m: &PropMeta, tier_s: &str) -> i32 {
             }
             std::thread::sleep(Duration::from_millis(100));
         }
-        for (s, tag, case, mut c, status) in procs {
+        for (s, tag, case, mut c, status, panics) in procs {
             if status.is_none() {
                 let _ = c.kill();
                 let _ = c.wait();
@@ -366,9 +346,17 @@ fn check(m: &PropMeta, tier_s: &str) -> i32 {
                 )),
                 Some(EXIT_VIOLATION) => violations.push(Violation {
                     case,
-                    message: "case first hung, and fails when re-run alone".into(),
+                    message: format!("case did not complete in its shard, and fails when re-run alone{}", if panics.is_empty() { String::new() } else { format!(": {}", panics.join("; ")) }),
                     original_case: None,
                     stage: "hang-confirm".into(),
+                    seed,
+                    shard: s,
+                }),
+                Some(EXIT_HANG) | None if !panics.is_empty() => violations.push(Violation {
+                    case,
+                    message: format!("panic in code under test and the case never returned: {}", panics.join("; ")),
+                    original_case: None,
+                    stage: "hang+panic".into(),
                     seed,
                     shard: s,
                 }),
@@ -397,6 +385,21 @@ fn check(m: &PropMeta, tier_s: &str) -> i32 {
         }
         if extra > 0 {
             eprintln!("{extra} further hanging case(s) not confirmed individually");
+        }
+    }
+
+    // ---- coverage-guided fuzz stage (thorough tier; the oracle is the same check function)
+    let mut fuzz_info = serde_json::Value::Null;
+    if tier == Tier::Thorough && violations.is_empty() && std::env::var("TUV_NO_FUZZ").is_err() {
+        if let Some(target) = m.fuzz_target {
+            let runs: u64 = std::env::var("TUV_FUZZ_RUNS").ok().and_then(|s| s.parse().ok()).unwrap_or(m.fuzz_runs);
+            let (info, viol, inc) = fuzz_stage(m, target, runs, seed, &work);
+            fuzz_info = info;
+            if let Some(n) = fuzz_info.get("executions").and_then(|v| v.as_u64()) {
+                total.evaluations += n;
+            }
+            violations.extend(viol);
+            inconclusive.extend(inc);
         }
     }
 
@@ -463,6 +466,7 @@ fn check(m: &PropMeta, tier_s: &str) -> i32 {
             "discards": total.discards,
             "shards": nshards,
             "extra": total.extra,
+            "fuzz": fuzz_info,
             "known_findings_hit": known_hits.iter().filter(|k| k.still_fails).map(|k| k.id.clone()).collect::<HashSet<_>>().into_iter().collect::<Vec<_>>(),
             "inconclusive": inconclusive,
             "exhaustive": false,
@@ -501,4 +505,79 @@ fn check(m: &PropMeta, tier_s: &str) -> i32 {
     } else {
         EXIT_OK
     }
+}
+
+/// Runs `cargo +nightly fuzz run <target>` on a fresh corpus directory seeded with encodings
+/// of nothing (libFuzzer starts from the empty input; -len_control=0 lets it use the full
+/// length at once). A crash artifact is decoded back into a case and re-checked in-process:
+/// only a case that fails the property's own check becomes a violation.
+fn fuzz_stage(m: &PropMeta, target: &str, runs: u64, seed: u64, work: &Path) -> (serde_json::Value, Vec<Violation>, Vec<String>) {
+    let fuzz_dir = verif_root().join("harness");
+    let corpus = work.join(format!("corpus-{target}"));
+    let artifacts = work.join(format!("artifacts-{target}"));
+    let _ = std::fs::create_dir_all(&corpus);
+    let _ = std::fs::create_dir_all(&artifacts);
+    let jobs = 8u64;
+    let t0 = Instant::now();
+    let out = Command::new("cargo")
+        .current_dir(&fuzz_dir)
+        .env("CARGO_NET_OFFLINE", "true")
+        .env_remove("CARGO_TARGET_DIR")
+        .args(["+nightly", "fuzz", "run", target])
+        .arg(&corpus)
+        .arg("--")
+        .arg(format!("-runs={}", runs / jobs))
+        .arg(format!("-seed={}", (seed % 0xffff_fff0) + 1))
+        .arg("-len_control=0")
+        .arg("-max_len=128")
+        .arg("-print_final_stats=1")
+        .arg(format!("-artifact_prefix={}/", artifacts.display()))
+        .arg(format!("-fork={jobs}"))
+        .arg("-ignore_crashes=0")
+        .output();
+    let mut viol = vec![];
+    let mut inc = vec![];
+    let Ok(out) = out else {
+        inc.push("cargo fuzz could not be started".to_string());
+        return (serde_json::Value::Null, viol, inc);
+    };
+    let text = format!("{}{}", String::from_utf8_lossy(&out.stdout), String::from_utf8_lossy(&out.stderr));
+    let mut execs = 0u64;
+    for l in text.lines() {
+        if let Some(r) = l.strip_prefix("stat::number_of_executed_units:") {
+            execs += r.trim().parse::<u64>().unwrap_or(0);
+        }
+        // fork mode prints "#123: cov: .. exec/s .." lines
+        if l.starts_with('#') && l.contains("cov:") {
+            if let Some(n) = l[1..].split(':').next().and_then(|x| x.trim().parse::<u64>().ok()) {
+                execs = execs.max(n);
+            }
+        }
+    }
+    let corpus_size = std::fs::read_dir(&corpus).map(|d| d.count()).unwrap_or(0);
+    let mut crashes = 0;
+    if let Ok(rd) = std::fs::read_dir(&artifacts) {
+        for e in rd.flatten() {
+            let name = e.file_name().to_string_lossy().to_string();
+            if !(name.starts_with("crash-") || name.starts_with("timeout-") || name.starts_with("oom-")) {
+                continue;
+            }
+            crashes += 1;
+            let bytes = std::fs::read(e.path()).unwrap_or_default();
+            match (m.fuzz_decode)(&bytes) {
+                Some(case) => match (m.check_json)(&case) {
+                    Ok(Some(msg)) => viol.push(Violation { case, message: format!("found by libFuzzer target {target}: {msg}"), original_case: None, stage: "fuzz".into(), seed, shard: 0 }),
+                    Ok(None) => inc.push(format!("fuzz target {target} produced {name} but the decoded case passes the check when re-run (kept at {})", e.path().display())),
+                    Err(e2) => inc.push(format!("artifact {name} does not decode: {e2}")),
+                },
+                None => inc.push(format!("artifact {name} does not decode into a case")),
+            }
+        }
+    }
+    if !out.status.success() && crashes == 0 && !text.contains("Done ") && execs == 0 {
+        let tail: String = text.lines().rev().take(6).collect::<Vec<_>>().join(" | ");
+        inc.push(format!("fuzz stage {target} failed to run: {tail}"));
+    }
+    let info = json!({"target": target, "executions": execs, "corpus_files": corpus_size, "crash_artifacts": crashes, "wall_s": t0.elapsed().as_secs_f64(), "engine": "libFuzzer via cargo-fuzz, -fork=8, -len_control=0, max_len 128"});
+    (info, viol, inc)
 }
